@@ -31,13 +31,15 @@ pub struct Graph {
     pub incdir_file: Option<usize>,
     /// file that writes its first include statement a second time (a multi-edge)
     pub repeat_in: Option<usize>,
+    /// file that spells the path of its first include with a detour (`sub/../fN.td`): the same file
+    pub dotdot_in: Option<usize>,
 }
 
 impl Graph {
     fn to_json(&self) -> Value {
         json!({
             "n": self.n, "edges": self.edges, "root": self.root, "class_first": self.class_first,
-            "missing_in": self.missing_in, "incdir_file": self.incdir_file, "repeat_in": self.repeat_in, "witness": self.witness(),
+            "missing_in": self.missing_in, "incdir_file": self.incdir_file, "repeat_in": self.repeat_in, "dotdot_in": self.dotdot_in, "witness": self.witness(),
         })
     }
 
@@ -50,6 +52,7 @@ impl Graph {
             missing_in: v["missing_in"].as_u64().map(|x| x as usize),
             incdir_file: v["incdir_file"].as_u64().map(|x| x as usize),
             repeat_in: v["repeat_in"].as_u64().map(|x| x as usize),
+            dotdot_in: v["dotdot_in"].as_u64().map(|x| x as usize),
         }
     }
 
@@ -66,6 +69,9 @@ impl Graph {
             }
             if self.repeat_in == Some(i) {
                 s.push_str("+first-include-repeated");
+            }
+            if self.dotdot_in == Some(i) {
+                s.push_str("+first-include-through-dotdot");
             }
             parts.push(s);
         }
@@ -95,6 +101,11 @@ impl Graph {
         if self.repeat_in == Some(i) {
             if let Some(first) = names.first().cloned() {
                 names.push(first);
+            }
+        }
+        if self.dotdot_in == Some(i) {
+            if let Some(first) = names.first_mut() {
+                *first = format!("sub/../{first}");
             }
         }
         if self.missing_in == Some(i) {
@@ -130,11 +141,14 @@ impl Graph {
         if self.repeat_in.is_some() {
             out.push(Graph { repeat_in: None, ..self.clone() });
         }
+        if self.dotdot_in.is_some() {
+            out.push(Graph { dotdot_in: None, ..self.clone() });
+        }
         if self.class_first {
             out.push(Graph { class_first: false, ..self.clone() });
         }
         // drop the last file when nothing refers to it
-        if self.n > 1 && self.root != self.n - 1 && self.missing_in != Some(self.n - 1) && self.incdir_file != Some(self.n - 1) && self.repeat_in != Some(self.n - 1) {
+        if self.n > 1 && self.root != self.n - 1 && self.missing_in != Some(self.n - 1) && self.incdir_file != Some(self.n - 1) && self.repeat_in != Some(self.n - 1) && self.dotdot_in != Some(self.n - 1) {
             let mask = !(1u32 << (self.n - 1));
             let mut g = self.clone();
             g.n -= 1;
@@ -157,13 +171,28 @@ impl Graph {
     }
 }
 
+/// `.` and `..` resolved lexically.
+fn normalize(path: &str) -> String {
+    let mut parts: Vec<&str> = Vec::new();
+    for c in path.split('/') {
+        match c {
+            "." => {}
+            ".." => {
+                parts.pop();
+            }
+            c => parts.push(c),
+        }
+    }
+    parts.join("/")
+}
+
 /// Reference include resolution: the including file's directory first, then INCLUDE_DIR.
 fn resolve(existing: &BTreeSet<String>, from_dir: &str, name: &str, incdir: Option<&str>) -> Option<String> {
     let mut dirs = vec![from_dir.to_string()];
     if let Some(d) = incdir {
         dirs.push(d.to_string());
     }
-    dirs.into_iter().map(|d| format!("{d}/{name}")).find(|p| existing.contains(p))
+    dirs.into_iter().map(|d| normalize(&format!("{d}/{name}"))).find(|p| existing.contains(p))
 }
 
 pub fn eval_graph(g: &Graph) -> Vec<Failure> {
@@ -301,7 +330,7 @@ fn for_each_graph(tier: Tier, ctx: &mut Ctx, mut f: impl FnMut(&mut Ctx, &Graph)
             for root in 0..n {
                 let layouts: &[bool] = if n <= 3 { &[false, true] } else { &[false] };
                 for &class_first in layouts {
-                    let base = Graph { n, edges: edges.clone(), root, class_first, missing_in: None, incdir_file: None, repeat_in: None };
+                    let base = Graph { n, edges: edges.clone(), root, class_first, missing_in: None, incdir_file: None, repeat_in: None, dotdot_in: None };
                     if !f(ctx, &base) {
                         return;
                     }
@@ -314,6 +343,12 @@ fn for_each_graph(tier: Tier, ctx: &mut Ctx, mut f: impl FnMut(&mut Ctx, &Graph)
                                 return;
                             }
                             if edges[v] != 0 && !f(ctx, &Graph { repeat_in: Some(v), ..base.clone() }) {
+                                return;
+                            }
+                            if edges[v] != 0 && !f(ctx, &Graph { dotdot_in: Some(v), ..base.clone() }) {
+                                return;
+                            }
+                            if edges[v] != 0 && !f(ctx, &Graph { dotdot_in: Some(v), repeat_in: Some(v), ..base.clone() }) {
                                 return;
                             }
                         }
@@ -332,7 +367,7 @@ impl Engine for C16 {
     fn rule(&self, tier: Tier) -> String {
         format!(
             "every directed graph with self-loops on n files x every root: all edge sets for n <= 4 (n <= 3: both declaration orders), n = 5 with out-degree <= {}; \
-             for n <= 3 additionally one file including a missing target, one non-root file present only under INCLUDE_DIR, and one file writing its first include statement twice (a multi-edge). \
+             for n <= 3 additionally one file including a missing target, one non-root file present only under INCLUDE_DIR, one file writing its first include statement twice (a multi-edge), one file spelling its first include through `sub/../` (the same file under another spelling), and both together. \
              non-trivial = the graph has a cycle, a diamond or an unresolvable include; graphs are distinct by construction.",
             tier.pick(1, 2)
         )
